@@ -1,6 +1,7 @@
 package harness
 
 import (
+	"strings"
 	"pgregory.net/rapid"
 	"fmt"
 	"sort"
@@ -189,6 +190,16 @@ func checkC06Again(t *testing.T, sc BatchSc) Verdict {
 	return v
 }
 
+// checkC06Dup: items whose payloads are nil or equal to each other are still n separate items:
+// post gets n items in prep's order and n results, result i from an execution of its own.
+func checkC06Dup(t *testing.T, c C07Dup) Verdict {
+	v := checkC07Dup(t, c)
+	if v.Violation != "" {
+		v.Fingerprint = "C06" + strings.TrimPrefix(v.Fingerprint, "C07")
+	}
+	return v
+}
+
 func modeContinue(m int) int {
 	if m == 2 {
 		return 1
@@ -282,6 +293,7 @@ func TestC06(t *testing.T) {
 	rapidPart(r, "rand-ungated", r.pick(1500, 25000), g2.gen, checkC06)
 	// the same guarantees while a cancellation strikes (scenarios of C11's generator)
 	rapidPart(r, "rand-cancelled", r.pick(1500, 25000), genC11, checkC06)
+	rapidPart(r, "nil-and-equal-payloads", r.pick(600, 15000), genC07Dup, checkC06Dup)
 	// the same node object run twice, untouched, with two different item lists
 	g3 := batchGen{MinN: 0, MaxN: 24, MaxC: 6, Modes: []int{0, 1, 1}, MaxBudget: 2, PFail: 250, PResErr: 60, Fb: true, Gated: 1, MaxSched: 40, PrepForms: []int{PFResults}}
 	rapidPart(r, "rand-rerun", r.pick(1500, 25000), func(rt *rapid.T) BatchSc {
@@ -338,6 +350,7 @@ func c06Sharded(r *Run, base BatchSc) {
 }
 
 func init() {
+	registerReplaySub("C06", "nil-and-equal-payloads", checkC06Dup)
 	registerReplay("C06", checkC06)
 	registerReplaySub("C06", "rand-rerun", checkC06Again)
 }
